@@ -50,7 +50,7 @@ def plan(tier, seed):
 
 def mandatory(tier):
     out = [f"weights/stride={s}" for s in STRIDES] + [f"weights/derivative={d}" for d in range(4)]
-    out += ["line/transpose=False", "line/transpose=True", "D/2", "D/3", "derivative>0", "subdivide", "ffd_grid_", "ffd_linear", "algorithms_agree", "nondivisible", "control_point_grid"]
+    out += ["line/transpose=False", "line/transpose=True", "D/2", "D/3", "derivative>0", "subdivide", "spatial_derivatives/bspline", "spatial_derivatives/bspline/repeated_axis", "ffd_grid_", "ffd_grid_copy/parameter", "ffd_grid_copy/buffer", "ffd_linear", "algorithms_agree", "nondivisible", "control_point_grid"]
     return out
 
 
@@ -175,6 +175,31 @@ def case(ctx, i):
             if ok:
                 ref = S.evaluate(coef, shape, stride, der)
                 ctx.close("evaluate_nd_vs_oracle", out, ref, 1e-11 * (1 + np.abs(ref).max()), key="evaluate/values/transpose=False", **info)
+    # ---- derivative mode of the image functions: analytic spline derivatives, divided by spacing^order per axis
+    if all(m >= 4 for m in cs):
+        with ctx.guard("spatial_derivatives(bspline)", key="exc/spatial_derivatives", **desc):
+            from deepali.core.image import spatial_derivatives
+
+            ctx.bucket("spatial_derivatives/bspline")
+            ax_ = "xyz"[:D]
+            sp = rng.uniform(0.4, 2.5, size=D).astype(np.float32).astype(np.float64)
+            keys = []
+            for _ in range(4):
+                od = [int(rng.integers(0, 4)) for _ in range(D)]
+                if sum(od) == 0 or sum(od) > 4:
+                    od = [0] * D
+                    od[int(rng.integers(0, D))] = int(rng.integers(2, 4))
+                keys.append("".join(a * k for a, k in zip(ax_, od)))
+            keys = sorted(set(keys + [ax_[0] * 2, ax_[-1] * 3]))
+            got = spatial_derivatives(ct, which=keys, mode="bspline", spacing=tuple(float(q) for q in sp), stride=stride)
+            oshape = tuple((m - 3) * s_ for m, s_ in zip(cs, stride[::-1]))
+            for key in keys:
+                od = [key.count(a) for a in ax_]
+                ref = S.evaluate(coef, oshape, stride, od) / float(np.prod(sp ** np.asarray(od)))
+                if ctx.true("bspline_derivative_shape", tuple(got[key].shape[2:]) == oshape, key="spatial_derivatives/shape", got=list(got[key].shape), want=list(oshape), **desc):
+                    ctx.close("bspline_derivative_mode_vs_analytic", got[key], ref, 2e-6 * (1 + np.abs(ref).max()), key="spatial_derivatives/bspline", entry=key, spacing=sp.tolist(), **desc)
+                if max(od) >= 2:
+                    ctx.bucket("spatial_derivatives/bspline/repeated_axis")
     # size= argument (x, ...) order
     with ctx.guard("evaluate_cubic_bspline(size=)", **desc):
         out = evaluate_cubic_bspline(ct, stride=stride, size=shape[::-1])
@@ -255,6 +280,26 @@ def case(ctx, i):
             ffd.update()
             u0 = ffd.u.double().numpy()
             cur_shape, cur_stride_rel = shape, stride
+            # refinement that returns a new transform: the copy is the same function on the finer grid and the
+            # original (optimisable parameters or fixed tensor) still represents the function it did
+            for held in ("parameter", "buffer"):
+                src = FreeFormDeformation(grid, groups=N, params=(held == "parameter"), stride=stride)
+                src.data_(torch.tensor(p, dtype=torch.float32))
+                src.update()
+                dims = sorted(rng.choice(D, size=int(rng.integers(1, D + 1)), replace=False).tolist())
+                new_size = tuple(2 * n - 1 if d in dims else n for d, n in enumerate(shape[::-1]))
+                if max(new_size) > 70:
+                    continue
+                fine = src.grid(grid.resize(new_size))
+                fine.update()
+                uf = fine.u.detach().double().numpy()
+                ctx.bucket(f"ffd_grid_copy/{held}")
+                if ctx.true("refined_ffd_copy_covers_grid", tuple(uf.shape) == (N, D) + tuple(new_size[::-1]), key="ffd_grid_/shape", got=list(uf.shape), held=held, **desc):
+                    sl = tuple(slice(None, None, 2) if (D - 1 - a) in dims else slice(None) for a in range(D))
+                    ctx.close("ffd_refined_copy_preserves_displacement", uf[(slice(None), slice(None)) + sl], u0, 5e-6 * (1 + np.abs(p).max()), key="ffd_grid_/function", dims=dims, held=held, **desc)
+                ctx.true("ffd_refined_copy_leaves_original_grid", src.grid() == grid and tuple(src.data().shape[2:]) == cs, key="ffd_grid_/original", held=held, got=list(src.data().shape), **desc)
+                src.update()
+                ctx.close("ffd_original_unchanged_by_refined_copy", src.u.detach(), u0, 5e-6 * (1 + np.abs(p).max()), key="ffd_grid_/original", dims=dims, held=held, **desc)
             for rep in range(2):
                 dims = sorted(rng.choice(D, size=int(rng.integers(1, D + 1)), replace=False).tolist())
                 new_size = tuple(2 * n - 1 if d in dims else n for d, n in enumerate(cur_shape[::-1]))
